@@ -15,7 +15,7 @@ from __future__ import annotations
 import ast
 
 from ..affine import Lin, lin
-from ..facts import atoms, call_is, meth_is, strip
+from ..facts import atoms, call_is, cases, meth_is, strip
 from ..model import AnalysisError, norm
 from ..paths import CursorLoop, eq_subst, find_loops, int_lower_bounds, offset_view
 from ..terms import is_const, show, subterms, summarize
@@ -84,9 +84,12 @@ def run(ctx):
     size = cl.field(SIZE_AT)
     for node, k, pc in cl.reads(prog):
         ctx.count("reads")
-        facts = atoms(pc)
-        lbs = int_lower_bounds(facts)
-        size_lb = lbs.get(size, 0)
+        # weakest bound over the (consistent) cases of the path condition: `not (a and b)` followed by `a` leaves `not b`
+        try:
+            cs_ = cases(pc)
+        except ValueError:
+            cs_ = [atoms(pc)]
+        size_lb = min((int_lower_bounds(facts).get(size, 0) for facts in cs_), default=0) if cs_ else 0
         ok = k <= SIZE_AT + size_lb
         ctx.ob("C15.b", PARSE, ok, f"read {cl.cursor}[{k}] stays inside the record (size >= {size_lb} on its path)",
                func=PARSE, file=file, node=node,
@@ -99,6 +102,22 @@ def run(ctx):
         ctx.count("carried")
         if name in allowed:
             ctx.ob("C15.c", PARSE, True, f"`{name}` is the cursor")
+            continue
+        # an iteration budget (count down / count up, tested only by the loop condition) interprets no record
+        lvc = ("loopvar", name, cl.loop.lineno)
+        own_updates = True
+        for st_ in cl.loop.body:
+            for n_ in ast.walk(st_):
+                if isinstance(n_, ast.stmt) and not isinstance(n_, (ast.If, ast.For, ast.While, ast.Try, ast.With)):
+                    uses = any(isinstance(x_, ast.expr) and x_ in s.ta.terms_at and any(y_ == lvc for y_ in subterms(s.ta.terms_at[x_])) for x_ in ast.walk(n_))
+                    if uses:
+                        tg_ = n_.targets if isinstance(n_, ast.Assign) else ([n_.target] if isinstance(n_, ast.AugAssign) else None)
+                        if not (tg_ and all(isinstance(t_, ast.Name) and t_.id == name for t_ in tg_)):
+                            own_updates = False
+                elif isinstance(n_, (ast.If, ast.While)) and n_.test in s.ta.terms_at and any(y_ == lvc for y_ in subterms(s.ta.terms_at[n_.test])):
+                    own_updates = False
+        if "." not in name and own_updates and isinstance(cl.loop, ast.While):
+            ctx.ob("C15.c", PARSE, True, f"`{name}` is an iteration budget: it is only updated by itself and tested by the loop condition")
             continue
         # the result dictionary: only written (mutation / store), never read for a decision
         is_result = name.startswith(recv + ".")
